@@ -15,8 +15,8 @@ import (
 	"bytes"
 	"encoding/binary"
 	"fmt"
+	"verifharness/dirtysw"
 
-	"github.com/Eyevinn/mp4ff/bits"
 	"github.com/Eyevinn/mp4ff/mp4"
 
 	gfrag "verifharness/gen/frag"
@@ -700,7 +700,7 @@ func (p *shapedPlan) encodeMediaAPI(trexTrick, sw bool) ([]byte, error) {
 }
 
 func encodeFragSW(f *mp4.Fragment) ([]byte, error) {
-	w := bits.NewFixedSliceWriter(int(f.Size()) + 64)
+	w := dirtysw.New(int(f.Size()) + 64)
 	if err := f.EncodeSW(w); err != nil {
 		return nil, err
 	}
